@@ -118,7 +118,9 @@ def _build_all(clean, verbose, only=None):
         rc, out = sh(["coq_makefile", "-f", "_CoqProject", "-o", "Makefile"], cwd=COQ)
         say("coq_makefile rc=%d" % rc)
     t0 = time.time()
-    rc, out = sh(["timeout", "3000", "make", "-k", "-j16"], cwd=COQ, timeout=3100)
+    # every coqc under its own wall-clock limit and an address-space limit: one runaway file must not hold the
+    # build lock (or exhaust memory) for everybody
+    rc, out = sh(["bash", "-c", "ulimit -v 16000000; exec timeout 3000 make -k -j16 COQC='timeout 900 coqc'"], cwd=COQ, timeout=3100)
     say("coq make rc=%d (%.0fs)\n%s" % (rc, time.time() - t0, out[-6000:] if rc != 0 else ""))
     st["coq_failed"] = [f for f in files if not built(f)]
     st["coq_ok"] = not st["coq_failed"]
